@@ -499,7 +499,7 @@ mutual
 /-- `Tracer::to_field` (overwrite lookup, then the node's own `to_field`) -/
 def Tracer.to_field (o : Options) : Tracer → R Field
   | .unknown n p nl => withOverwrite o n p fun _ =>
-    if !o.allow_null_fields then fail "Encountered null only field" else .ok (.mk n .null nl [])
+    if !o.allow_null_fields then fail "Encountered null only field" else .ok (.mk n .null true [])
   | .primitive n p nl ty st => withOverwrite o n p fun _ =>
     if !o.allow_null_fields && isNull ty then fail "Encountered null only field"
     else if isNull ty then .ok (.mk n .null true [])
